@@ -1,6 +1,7 @@
 import HpoModel.Drv.Query
 import HpoModel.Similarity
 import HpoModel.Combine
+import HpoModel.CombineFast
 /- Protocol handlers for term similarities (C04) and set similarities (C05), run at `Float32`. -/
 namespace Hpo
 namespace Drv
@@ -47,8 +48,14 @@ def tableSim (sym : Bool) (salt a b : Nat) : Float32 :=
 def tableSimSigned (sym : Bool) (salt a b : Nat) : Float32 :=
   (Float32.ofNat (if sym then ((a + b) * 13 + a * b * 7 + salt) % 64 else (a * 31 + b * 17 + salt) % 64) - 32) / 64
 
+/-- coarse values `0, 0.25, …, 1.75`: scores above 1 and exact 1.0 are frequent -/
+def tableSimCoarse (sym : Bool) (salt a b : Nat) : Float32 :=
+  Float32.ofNat ((if sym then ((a + b) * 13 + a * b * 7 + salt) % 64 else (a * 31 + b * 17 + salt) % 64) % 8) / 4
+
 def parseSimSpec (s : String) : Option (Nat → Nat → Float32) :=
   match s.toList with
+  | 'u' :: rest => (String.ofList rest).toNat?.map fun salt => tableSimCoarse false salt
+  | 'v' :: rest => (String.ofList rest).toNat?.map fun salt => tableSimCoarse true salt
   | 't' :: rest => (String.ofList rest).toNat?.map fun salt => tableSim false salt
   | 's' :: rest => (String.ofList rest).toNat?.map fun salt => tableSim true salt
   | 'n' :: rest => (String.ofList rest).toNat?.map fun salt => tableSimSigned false salt
@@ -124,6 +131,14 @@ def handleSim (s : DState) (toks : List String) : Option Out :=
           | .ok v => some (s, ["SS " ++ showScore v, "oracle ok"])
           | _ => some (die s)
     | _, _, _, _ => none
+  | ["matsim1", cb, ks] =>
+    -- one-row matrix: closed form `Combine.calculateOneRow` (= `calculate`, HpoProofs/CombineFast.lean)
+    match parseCombiner cb, parseIds ks with
+    | some cb, some ks =>
+      match Combine.calculateOneRow cb (ks.map fun k => (Float32.ofNat k / 64 : Float32)) with
+      | .ok v => some (s, ["MS " ++ showScore v])
+      | _ => some (die s)
+    | _, _ => none
   | ["matsim", cb, r, c, ks] =>
     match parseCombiner cb, r.toNat?, c.toNat?, parseIds ks with
     | some cb, some r, some c, some ks =>
